@@ -18,7 +18,9 @@ func zzC07Fixation(n, conc int) {
 	g.DT = NewDualType(1, 0)
 	g.WURZ = n
 	g.GRW = 25
-	g.LEGUM = true
+	g.LEGUM = vBool("legume")
+	g.SCHNORR = vFloat("handed_over_yesterday") // what the previous day (possibly of another crop) left behind
+	vAssume(g.SCHNORR >= 0 && g.SCHNORR <= 6)
 	WRAD := make([]float64, n)
 	for i := 0; i < n; i++ {
 		g.C1[i] = vFloat("c1", i)
@@ -49,6 +51,13 @@ func zzC07Fixation(n, conc int) {
 	vAssert("C07.fixation.daily_fixation_not_negative", g.NFIX >= 0)
 	vAssert("C07.fixation.cumulative_fixation_not_negative", g.NFIXSUM >= 0)
 	vAssert("C07.fixation.at_most_three_quarters_of_demand", g.NFIX <= 0.74*DTGESN+1e-12)
+	// the amount handed to the transport routine (which credits it to the crop on the first sub-step) is today's
+	// fixation: nothing of an earlier day or an earlier crop is credited again
+	vAssert("C07.fixation.amount_handed_over_is_todays_fixation", g.SCHNORR == g.NFIX)
+	if !g.LEGUM {
+		vAssert("C07.fixation.none_without_legume", g.NFIX == 0)
+		vCover("C07.fixation.cover_non_legume")
+	}
 	vObserve("nfix", g.NFIX)
 	vObserve("sumpe", SUMPE)
 }
